@@ -77,7 +77,7 @@ func familyConfig(family string, rng *rand.Rand) Scenario {
 		ExpireAfter: 2 + rng.Intn(2), RecoverTTL: 2 + rng.Intn(2), RecoverLogin: rng.Intn(2) == 0,
 		LogoutMethod: []string{"DELETE", "POST", "GET"}[rng.Intn(3)], MWReqs: rng.Intn(4),
 		MWFail: []string{"404", "401", "redirect"}[rng.Intn(3)], ErrWrites: rng.Intn(2) == 0,
-		TotpOneTime: rng.Intn(2) == 0, FoldPid: rng.Intn(3) == 0, RegNoWhitelist: rng.Intn(3) == 0, JSON: rng.Intn(4) == 0}
+		TotpOneTime: rng.Intn(2) == 0, FoldPid: rng.Intn(3) == 0, RegNoWhitelist: rng.Intn(3) == 0, JSON: rng.Intn(4) == 0, AppHandles2FA: rng.Intn(3) == 0}
 	switch rng.Intn(3) {
 	case 1:
 		c.Whitelist = []string{"app1"}
@@ -210,7 +210,13 @@ func (g *genCtx) nextEvent(family string) sut.Event {
 	switch e.Act {
 	case "LoginPost":
 		e.Pid = g.pid()
+		if c.Has("oauth2") && g.chance(0.2) {
+			e.Pid = g.pick("o_pa_x", "o_pa_y", "o_pb_x") // password login against a password-less (OAuth2) account
+		}
 		e.Pw, e.Junk = g.pw(0.6, o.Db[e.Pid].Pw)
+		if o.Db[e.Pid].Pw == 0 && g.chance(0.5) {
+			e.Pw, e.Junk = -1, g.pick("empty", "hash", "wrong")
+		}
 		e.Rm = g.chance(0.4)
 		if g.chance(0.2) {
 			e.Redir = "redir"
